@@ -1,6 +1,6 @@
 (* Decoding of C20 cases and verdicts. *)
 From Coq Require Import List NArith Bool.
-From FS Require Import Sx Model.Path Model.Stat Model.Varint Model.Codec Model.Framing Model.MetaBuffer.
+From FS Require Import Sx Model.Path Model.Stat Model.Varint Model.Codec Model.Framing Model.MetaBuffer Model.Listing.
 Import ListNotations.
 Open Scope N_scope.
 
@@ -285,4 +285,69 @@ Definition run_2005 (input impl : sx) : sx :=
               | _ => false
               end in
     verdict m impl sp (SL [])
+  end.
+
+(* kind 2006: (mode (stat..) [cut]) -> (file parse), parse = (#1 (stat..)) | (#0).
+   Model: the records (LE length ++ encoding, entry order read off the real file) pushed through
+   the chunked buffer; the file, cut to [cut] bytes when mode has bit 0, parsed by decode_listing.
+   Spec (uncut files): the parse gives back exactly the recorded stats, in order. *)
+Fixpoint listing_orders (fuel : nat) (s : bytes) : list (list (bytes * bytes)) :=
+  match fuel with
+  | O => []
+  | S f =>
+    match s with
+    | a :: b :: c :: d :: r =>
+      match take_n (le32_dec [a; b; c; d]) r with
+      | Some (body, r') =>
+        match decode_stat_into xappend (empty_stat, []) body with
+        | Some (s', _) => st_xattrs s'
+        | None => []
+        end :: listing_orders f r'
+      | None => []
+      end
+    | _ => []
+    end
+  end.
+Fixpoint records_ord (ss : list stat) (os : list (list (bytes * bytes))) : list bytes :=
+  match ss with
+  | [] => []
+  | s :: ss' =>
+    let o := match os with o :: _ => order_or (st_xattrs s) o | [] => st_xattrs s end in
+    lframe (encode_stat_ord o s) :: records_ord ss' (match os with _ :: os' => os' | [] => [] end)
+  end.
+Definition res_stats (o : option (list stat)) : sx :=
+  match o with Some l => SL [SN 1; SL (map enc_stat l)] | None => SL [SN 0] end.
+Fixpoint stats_eqb20 (got : list sx) (want : list stat) : bool :=
+  match got, want with
+  | [], [] => true
+  | g :: got', s :: want' =>
+    match dec_stat g with Some s' => stat_eqb s' s && stats_eqb20 got' want' | None => false end
+  | _, _ => false
+  end.
+
+Definition run_2006 (input impl : sx) : sx :=
+  match input with
+  | SL (SN mode :: ss :: rest) =>
+    match sx_list dec_stat ss with
+    | Some stats =>
+      let impl_file := match impl with SL [SB s; _] => s | _ => [] end in
+      let full := write_to (alloc_all (records_ord stats (listing_orders (S (length stats)) impl_file))) in
+      let truncated := N.testbit mode 0 in
+      let file :=
+        if truncated then
+          match rest with
+          | [SN cut] => if cut <? len full then firstn (N.to_nat cut) full else full
+          | _ => full
+          end
+        else full in
+      let m := SL [SB full; res_stats (decode_listing file)] in
+      let sp := if truncated then true
+                else match impl with
+                     | SL [SB _; SL [SN 1; SL got]] => stats_eqb20 got stats
+                     | _ => false
+                     end in
+      verdict m impl sp (SL [])
+    | None => v_malformed
+    end
+  | _ => v_malformed
   end.
